@@ -880,7 +880,68 @@ def attribute_list_case(ctx, rng):
         ctx.violation("value-differs-from-data", {"got": repr(got)[:300], "expected": repr(want)[:300]}, case)
 
 
-FAMILIES = {"attribute_lists": lambda ctx, rng: attribute_list_case(ctx, rng),
+_TWICE_PARSER = {}
+
+
+def twice_case(ctx, rng):
+    """one optional list symbol named twice in one production (the arguments on both sides of an arrow), and an optional
+    list directly in front of a list that opens with the same bracket (dimensions, then values)"""
+    kind = rng.choice(["rule", "decl"])
+    smart = rng.random() < 0.7
+    key = (kind, smart)
+    if key not in _TWICE_PARSER:
+        tok = r"(?P<SPACE>\s+)|(?P<COMMENT>\#.*)|(?P<WORD>[a-z0-9_]+)|(?P<ARROW>->)|(?P<BO>\[)|(?P<BC>\])|(?P<COMMA>,)|(?P<SEMI>;)"
+        syn = {'ARROW': '->', 'BO': '[', 'BC': ']', 'COMMA': ',', 'SEMI': ';'}
+        if kind == "rule":
+            prods = {'E': [('RULE',)], 'RULE': [('WORD', 'ARGS', '->', 'WORD', 'ARGS', ';')],
+                     'ARGS': ListProds('[', 'WORD', ',', ']', optional=True)}
+        else:
+            prods = {'E': [('DECL',)], 'DECL': [('WORD', 'DIMS', 'VALUES', ';')],
+                     'DIMS': ListProds('[', 'WORD', ',', ']', optional=True),
+                     'VALUES': ListProds('[', 'WORD', ',', ']')}
+        _TWICE_PARSER[key] = llparser.LLParser(tok, synonyms=syn, productions=prods, smart_factorization=smart)
+    ctx.evaluated()
+
+    def gen_list(may_be_absent):
+        if may_be_absent and rng.random() < 0.45:
+            return None
+        return [rng.choice(["a", "b", "r", "c", "x1"]) for _ in range(rng.choice([0, 1, 2, 3]))]
+
+    def text_of(lst):
+        if lst is None:
+            return ""
+        return "[" + ws(rng) + "".join(x + ws(rng) + ("," if k + 1 < len(lst) or (lst and rng.random() < 0.2) else "") + ws(rng)
+                                      for k, x in enumerate(lst)) + "]"
+
+    # (dimensions that are left out in front of values are not judged: the first alternative that matches is the one
+    # that is used, as documented, and the bracketed alternatives of the optional list come first)
+    first, second = gen_list(kind == "rule"), gen_list(kind == "rule")
+    if kind == "rule":
+        text = "f" + sep(rng) + text_of(first) + ws(rng) + "->" + ws(rng) + "g" + sep(rng) + text_of(second) + ws(rng) + ";"
+        want = ['f', first, '->', 'g', second, ';']
+    else:
+        text = "m" + sep(rng) + text_of(first) + ws(rng) + text_of(second) + ws(rng) + ";"
+        want = ['m', first, second, ';']
+    case = {"options": {"twice": kind, "smart": smart}, "text": text}
+
+    def plain(x):
+        if isinstance(x, TElement):
+            x = x.value
+        if isinstance(x, list):
+            return [plain(i) for i in x]
+        return x
+    try:
+        got = plain(_TWICE_PARSER[key].parse(text))
+    except Exception as err:
+        ctx.violation("valid-text-rejected", {"type": type(err).__name__, "msg": str(err)[:200]}, case)
+        return
+    ctx.count("productions_with_two_optional_lists_parsed")
+    if got != want:
+        ctx.violation("value-differs-from-data", {"got": repr(got)[:300], "expected": repr(want)[:300]}, case)
+
+
+FAMILIES = {"twice": lambda ctx, rng: twice_case(ctx, rng),
+            "attribute_lists": lambda ctx, rng: attribute_list_case(ctx, rng),
             "start_symbol_is_a_template": lambda ctx, rng: template_start_case(ctx, rng),
             "doc_comments": lambda ctx, rng: doc_comment_case(ctx, rng),
             "command_line": lambda ctx, rng: command_line_case(ctx, rng),
@@ -909,6 +970,8 @@ def run_shard(ctx):
                 doc_comment_case(ctx, rng)
             for _ in range(6):
                 attribute_list_case(ctx, rng)
+            for _ in range(6):
+                twice_case(ctx, rng)
         o = gen_options(rng)
         try:
             mk_parser(o)
